@@ -164,7 +164,7 @@ def run_shard(spec):
                 env.count("skipped_unserialisable_variables")
                 continue
             done += 1
-            via = rnd.choice(["plain", "plain", "plain", "debug", "cache_arg"])
+            via = rnd.choice(["plain", "plain", "plain", "debug", "cache_arg", "empty_extra_dict", "empty_extra_list"])
             if rnd.random() < 0.2 and not q.startswith(("-R", "res.txt", "dir/")) and not q.startswith("/"):
                 # the same queries spelled as absolute paths (their keys carry the leading '/')
                 q, ext = "/" + q, "/" + ext
